@@ -190,6 +190,7 @@ def first_diff(a, b):
     """a = model trace, b = implementation trace.  A model line with tag 9 says: here the C++ has
     no defined behaviour (null/dangling dereference ...); the implementation crashing at exactly
     that point is agreement about WHERE things go wrong (it is still a failure of the property)."""
+    a = [l for l in a if not l.startswith("Z ")]
     for i in range(max(len(a), len(b))):
         x = a[i] if i < len(a) else "<end of trace>"
         y = b[i] if i < len(b) else "<end of trace>"
@@ -218,7 +219,7 @@ class Runner:
         self.exe, err = impl_build(self.flavour)
         return err
 
-    def run(self, scripts, variant=None, timeout=900):
+    def run(self, scripts, variant=None, timeout=240):
         """scripts: list of (id, [lines]).  Returns (model blocks, impl blocks)."""
         self.n += 1
         base = os.path.join(self.work, "b%d_%d" % (os.getpid(), self.n))
